@@ -34,16 +34,23 @@ func EnumeratePathsFrom(start *ssa.BasicBlock, classify func(cond ssa.Value) str
 	var out []DPath
 	var walk func(b *ssa.BasicBlock, atoms map[string]bool, blocks []*ssa.BasicBlock) error
 	walk = func(b *ssa.BasicBlock, atoms map[string]bool, blocks []*ssa.BasicBlock) error {
-		for _, x := range blocks {
-			if x == b {
-				return fmt.Errorf("cycle through block %d: not a decision function", b.Index)
+		stopped := false
+		if len(blocks) > 0 && stop != nil && stop(b) {
+			stopped = true // a stop block ends the path even when it is the block the walk started from
+		}
+		if !stopped {
+			for _, x := range blocks {
+				if x == b {
+					return fmt.Errorf("cycle through block %d: not a decision function", b.Index)
+				}
 			}
 		}
+		first := len(blocks) == 0
 		blocks = append(append([]*ssa.BasicBlock{}, blocks...), b)
 		if len(out) > max {
 			return fmt.Errorf("more than %d paths", max)
 		}
-		if (stop != nil && stop(b)) || len(b.Succs) == 0 {
+		if stopped || (first && stop != nil && stop(b)) || len(b.Succs) == 0 {
 			cp := map[string]bool{}
 			for k, v := range atoms {
 				cp[k] = v
